@@ -268,6 +268,11 @@ Theorem C04_alloc_senc_guard : forall p hs hl body o, hl <= 16 -> (p = false -> 
 Proof. exact senc_guard_established. Qed.
 Print Assumptions C04_alloc_senc_guard.
 
+(* hvcC: the array / NALU loops of DecodeHEVCDecConfRec (8 and 16 bit counts, leave on the accumulated error) *)
+Theorem C04_alloc_hvcc : forall p hs hl body, bounded (alloc_hvcc p hs hl body) 12 8184 1 256 (lenN body).
+Proof. exact alloc_hvcc_bounded. Qed.
+Print Assumptions C04_alloc_hvcc.
+
 (* box level, both decode paths, EVERY byte string shorter than 32 GiB whose box type is one of the 21 modelled
    ones: header, size guard, prologue: at most 8 * len + 1048560 bytes requested, at most 2 * len + 65535 iterations *)
 Theorem C04_alloc_box_sr : forall bs, lenN bs < 34359738376 ->
